@@ -116,6 +116,18 @@ Proof. exact from_reader_ascii_written. Qed.
 Print Assumptions from_reader_written_binary.
 Print Assumptions from_reader_written_ascii.
 
+(* ---------------------------------------------------------------- the run-time checker *)
+
+(* Run/RunC19.v compares what the implementation read back with what it wrote through these
+   boolean equalities: `false` means the values differ *)
+Theorem checker_ids : forall a b : list N, leqb N.eqb a b = true <-> a = b.
+Proof. exact (leqb_eq N.eqb N.eqb_eq). Qed.
+Theorem checker_weights : forall a b, warray_eqb a b = true <-> a = b.
+Proof. exact warray_eqb_eq. Qed.
+Theorem checker_mesh : forall a b, mesh_eqb a b = true <-> a = b.
+Proof. exact mesh_eqb_eq. Qed.
+Print Assumptions checker_mesh.
+
 (* ---------------------------------------------------------------- non-vacuity *)
 
 Example partition_nonvacuous :
